@@ -3,6 +3,10 @@
 ALLOWED_AXIOMS = {"propext", "Classical.choice", "Quot.sound"}
 
 TRUSTED_BASE = [
+    "tools/gotr (Go subset -> Lean do-notation over Option) + lean/Anonymongo/Model/GoSem.lean (meaning of the emitted primitives): value semantics for slices / maps with "
+    "updates through pointers written back, strings as scalar-value sequences, Go int as Int, regexp.MatchString as an arbitrary predicate, the untranslated callees "
+    "(redactPipelineStage, UnmarshalOrdered, redactFieldNamesFromPlanSummary, os.ReadFile, base64 decode, Encrypt) as parameters; Generated/Src.lean is regenerated from /repo/src on every run "
+    "and Props/Src/* proves each translated function equal to the hand-written model function",
     "Lean 4.33 kernel; axioms allowed: propext, Classical.choice, Quot.sound (audited by #print axioms on every listed theorem); no sorry/admit/native_decide/bv_decide/own axioms (grep over lean/)",
     "translator tools/gen_tables.py + harness 'tables' mode: Generated/Tables.lean is the runtime value of the Go tables in the binary built from /repo's working tree",
     "hand-written model lean/Anonymongo/Model/* tied to the Go control flow by differential execution only (tools/corr.py: same operations on the Go harness and on the Lean driver)",
@@ -255,6 +259,7 @@ SRC_MODULES = {
     "Anonymongo.Src.blkLoop": "Command", "Anonymongo.Src.blkLoopG": "Command", "Anonymongo.Src.opsLoop": "Command",
     "Anonymongo.Src.RedactMongoLog_eq": "Line", "Anonymongo.Src.RedactMongoLog_eq_gen": "Line", "Anonymongo.Src.RedactMongoLog_err": "Line",
     "Anonymongo.Src.k12_eq": "Line", "Anonymongo.Src.k3_eq_obj": "Line", "Anonymongo.Src.attrFrom12_model": "Line", "Anonymongo.Src.Gen_ipPH": "Line",
+    "Anonymongo.Src.ReadKeyFromFile_eq": "Key", "Anonymongo.Src.ReadKeyFromFile_accepts": "Key",
     "Anonymongo.Src.HashName_eq": "Hash", "Anonymongo.Src.trimLeftCutset_dollar": "Hash",
     "Anonymongo.Src.redactQueryValues_eq": "Walk", "Anonymongo.Src.redactArrayValuesWithKey_eq": "Walk", "Anonymongo.Src.redactArrayValues_eq": "Walk",
     "Anonymongo.Src.redactQueryValues_eq_gen": "Walk", "Anonymongo.Src.QA_all": "Walk", "Anonymongo.Src.Q_step": "Walk", "Anonymongo.Src.A_step": "Walk",
@@ -279,6 +284,7 @@ SRC_THEOREMS = {
     "C05": _LEAF + _WALK,
     "C07": _LEAF + _PATH + _HELP + _WALK + _DISP + _CMD + ["Anonymongo.Src.redactNamespace_eq"] + _LINE,
     "C10": ["Anonymongo.Src.redactString_eq", "Anonymongo.Src.redactScalarValue_eq"] + _WALK,
+    "C11": ["Anonymongo.Src.ReadKeyFromFile_eq", "Anonymongo.Src.ReadKeyFromFile_accepts"],
     "C12": ["Anonymongo.Src.getOp_eq", "Anonymongo.Src.traverseMapPath_eq", "Anonymongo.Src.HashName_eq", "Anonymongo.Src.redactNamespaceFields_eq", "Anonymongo.Src.Gen_searchedFields",
             "Anonymongo.Src.redactNamespace_eq", "Anonymongo.Src.blkLoop", "Anonymongo.Src.blkInner"] + _LINE,
     "C13": ["Anonymongo.Src.HashName_eq", "Anonymongo.Src.trimLeftCutset_dollar"],
